@@ -2,10 +2,44 @@ use std::time::{SystemTime, UNIX_EPOCH};
 
 /// Get the current unix timestamp
 pub fn timestamp() -> u64 {
+    #[cfg(feature = "verif-hooks")]
+    if let Some(ts) = verif_hooks::mock_timestamp() {
+        return ts;
+    }
     SystemTime::now()
         .duration_since(UNIX_EPOCH)
         .unwrap()
         .as_millis() as u64
+}
+
+/// Verification hooks: harness-controlled, thread-local clock readings. Off by default.
+#[cfg(feature = "verif-hooks")]
+pub mod verif_hooks {
+    use std::cell::Cell;
+    use std::time::Duration;
+
+    thread_local! {
+        static MOCK_TIMESTAMP: Cell<Option<u64>> = const { Cell::new(None) };
+        static MOCK_WALL: Cell<Option<u64>> = const { Cell::new(None) };
+    }
+
+    /// Set (or clear) the value returned by `timestamp()` on this thread
+    pub fn set_mock_timestamp(ts: Option<u64>) {
+        MOCK_TIMESTAMP.with(|c| c.set(ts));
+    }
+
+    pub fn mock_timestamp() -> Option<u64> {
+        MOCK_TIMESTAMP.with(|c| c.get())
+    }
+
+    /// Set (or clear) the wall-clock reading (milliseconds since the epoch) used by the rebirth cooldowns on this thread
+    pub fn set_mock_wall(ms: Option<u64>) {
+        MOCK_WALL.with(|c| c.set(ms));
+    }
+
+    pub fn mock_wall() -> Option<Duration> {
+        MOCK_WALL.with(|c| c.get()).map(Duration::from_millis)
+    }
 }
 
 /// Validate a provided name value
